@@ -1,14 +1,24 @@
-# Development config of the binary serix part of C01 (`./check C01A`); merged into checks/c01.py.
+# Development config of the binary serix part of C01 (`./check C01A`); to be merged into checks/c01.py as
+#   parts: [{"driver": "drv_c01", "harness": "c01"}, ...]; lean_props: ["Hive.Props.C01", ...]; lean_namespace: [..., "Hive.Serix"].
 SPEC = {
     "lean_props": "Hive.Props.C01",
     "lean_namespace": "Hive.Serix",
     "theorem_prefix": "C01",
     "driver": "drv_c01",
     "harness": "c01",
+    "theorems": ["C01_decode_encode", "C01_decode_encode_exact", "C01_encode_perm_invariant",
+                 "C01_optional_empty_witness", "C01_empty_dups_witness", "C01_time_keys_witness",
+                 "C01_binary_statement_fails_witness", "C01_mustoccur_nil_panic_witness"],
     "trusted_base": ["hand-written model Hive/Model/Serix.lean of serializer/serix/{encode,decode}.go over serializer/serializer.go, tied by differential execution (harness/c01, harness/serixgen)",
-                     "schema derivation by reflection harness/serixgen/derive.go (mirrors the TypeSettings merge of serix)",
+                     "schema derivation by reflection harness/serixgen/derive.go (mirrors the TypeSettings merge of serix with the public accessors)",
                      "Go toolchain, compiled Lean driver"],
     "modelled": ["serix API.Encode/API.Decode for bool, (u)int8..64, float32/64 (bit patterns), string, []byte, byte arrays, *big.Int, time.Time, slices, arrays, maps, structs (embedded, optional, inlined), pointers, registered interfaces; all length prefix widths; ArrayRules min/max, no-duplicates, lexical order, at-most-one-of-each-type (byte/uint32), must-occur, lexicalOrdering auto-sort",
-                 "NOT modelled: user supplied Serializable/Deserializable implementations and syntactic validators (parameters), error texts (one outcome `err`), float map keys, encodings of 4 GiB and more"],
-    "assumptions": ["values are identified up to nil/empty slices and maps (Decode returns empty, never nil, collections)"],
+                 "NOT modelled: user supplied Serializable/Deserializable implementations and syntactic validators (parameters of the API), error texts (one outcome `err`), float/pointer/interface map keys, encodings of 4 GiB and more (uint32 optional marker), ds.Set / SerializableOrderedMap Encode/Decode (left to C11)"],
+    "assumptions": ["values are identified up to nil/empty slices and maps (Decode returns empty, never nil, collections)",
+                    "C01_decode_encode assumes Ty.wf (decidable; the harness recomputes it for every derived schema and the Lean driver must agree) and an encoding shorter than 2^32 bytes"],
+    "manifest": {
+        "text": "Binary serix part of C01. Theorem C01_decode_encode: for every well-formed schema (mutual inductive Ty/Fields/Alts mirroring what decides the wire shape), every value, both validation modes and every trailing input, decode (encode v ++ rest) = (canon v, |encode v|), proved by mutual structural induction with a sequence combinator shared by slices, arrays and maps (sorting by encoded bytes, element validators, must-occur). C01_encode_perm_invariant: a map given as any permutation of its entries encodes to the same bytes. Witness theorems show the unrestricted statement is false for the code as it is (optional *struct{}, empty-encoding duplicates, saturating time keys). The model is re-validated on every run by differential execution: catalogue of hand-written Go types plus randomly generated registered universes (reflect.StructOf/SliceOf/ArrayOf/MapOf/PointerTo in a fresh serix.API); the schema sent to Lean is derived by reflection from the Go type and the registered TypeSettings; enc / dec(enc) / canon / mutated dec lines are compared line by line, and an independent Go oracle checks Decode(Encode(v)) == canon(v), n = len, with and without trailing bytes, and determinism (encode twice, rebuilt maps).",
+        "note": "Trusted: Lean kernel; model Hive/Model/Serix.lean and the reflection-based schema derivation (tie = differential execution, ~2600 universes x 3 values x 2 modes in the quick tier); custom Serializable types and validators are parameters, not modelled.",
+        "technique": "Lean 4 mutual structural induction over a schema type + differential correspondence with reflection-derived schemas",
+    },
 }
